@@ -160,6 +160,12 @@ func (f *frame) binop(ins *ssa.BinOp) (*Term, error) {
 		return nil, unsupported("binary operation on non-term values")
 	}
 	x, y := xv.T, yv.T
+	if (ins.Op == token.EQL || ins.Op == token.NEQ) && x.Sort != y.Sort && x.Sort.Kind == KData && y.Sort.Kind == KData {
+		// named struct compared with an identical anonymous struct (Go allows it): bring y to x's sort
+		if c, cerr := f.convert(y, ins.Y.Type(), ins.X.Type()); cerr == nil {
+			y = c
+		}
+	}
 	switch ins.Op {
 	case token.EQL:
 		if x.Sort != y.Sort {
@@ -296,6 +302,21 @@ func (f *frame) convert(x *Term, from, to types.Type) (*Term, error) {
 		return x, nil
 	case fs == ts:
 		return x, nil
+	case fs.Kind == KData && ts.Kind == KData && len(fs.Fields) == len(ts.Fields):
+		// conversion between struct types with identical field sequences (named <-> anonymous)
+		same := true
+		for i := range fs.Fields {
+			if fs.Fields[i].Sort != ts.Fields[i].Sort {
+				same = false
+			}
+		}
+		if same {
+			parts := make([]*Term, len(fs.Fields))
+			for i := range fs.Fields {
+				parts[i] = SelField(x, i)
+			}
+			return MkData(ts, parts...), nil
+		}
 	case fs.Name == "F64" && ts.Name == "F64":
 		return x, nil
 	}
@@ -495,6 +516,15 @@ func (f *frame) step(ins ssa.Instruction, b *ssa.BasicBlock, in map[*ssa.BasicBl
 				if p.Kind == pHeap && len(p.Path) == 0 {
 					f.symCells()["ref:"+p.Ref.String()] = vv
 					return false, nil
+				}
+			}
+			if vv.Clo != nil && vv.Clo.Fn != nil {
+				// a closure stored into a field: it travels as a fresh Fn term; what it denotes is
+				// remembered so that a later call through the loaded value is resolved statically
+				if fs, serr := f.e.Sorts.SortOf(x.Val.Type()); serr == nil && fs == SFn {
+					ft := f.e.fresh("clo", SFn)
+					f.symCells()["fn:"+ft.String()] = vv
+					return false, f.store(p, ft, x.Val.Type())
 				}
 			}
 			return false, unsupported("store of a symbolic pointer/closure into memory")
